@@ -51,6 +51,7 @@ type conf struct {
 	overlap                         bool       // trace mode: job snapshot writes are held and land in seeded order; checkpoints are started meanwhile
 	mem                             []int      // dkv memtable sizes to run with, one per behaviour / generation in turn (0 = the repo's default); empty: no tuning
 	lvl, amp                        int        // dkv.smallestLevelSize / dkv.maxSizeAmpPct under tuning (0 = default)
+	swapDelayUs                     int        // every other tuned generation: flush / compaction swaps are delayed by up to this many microseconds
 }
 
 // nk is the number of model keys.
@@ -87,6 +88,7 @@ func readConf(in *mbt.Input) (*conf, error) {
 	c.overlap = in.CfgBool("Overlap", false)
 	c.mem = in.Ints("MemSizes")
 	c.lvl, c.amp = in.CfgInt("SmallestLevel", 0), in.CfgInt("MaxSizeAmpPct", 0)
+	c.swapDelayUs = in.CfgInt("SwapDelayUs", 0)
 	if c.G > 0 {
 		gd := in.CfgInt("GroupDigits", 0)
 		c.group = digits(gd, ndigits(gd))
@@ -163,6 +165,9 @@ func (c *conf) tuneFor(turn int) int {
 		if c.amp == 0 && turn%3 == 1 {
 			t.MaxSizeAmpPct = cluster.NeverMajor // only minor compactions (L0+L1 -> L1, cascading)
 		}
+		if turn%2 == 0 {
+			t.SwapDelay = time.Duration(c.swapDelayUs) * time.Microsecond // slow background tasks: DKV checkpoints race with flushes in flight
+		}
 	}
 	cluster.InstallDkvTune(t)
 	return m
@@ -206,6 +211,22 @@ func countShapes(c *cluster.Cluster, mark int, res *mbt.Result) {
 			res.Count("restoredWithTablesAndWal", 1)
 		}
 	}
+}
+
+// restoreFailure: the code under test failed (returned an error or panicked) while an operator of the
+// generation booted since log index mark was deployed, i.e. while it restored its DKV from the checkpoints the
+// job handed to it. The job then waits for ever (Boot times out); that is not a machinery problem but the
+// restart from the newest completed checkpoint failing.
+func restoreFailure(c *cluster.Cluster, mark int) string {
+	for _, o := range c.Log(mark) {
+		if o.Kind == "panic" && len(o.Node) > 2 && o.Node[:2] == "op" {
+			return fmt.Sprintf("%s panicked while restoring: %s", o.Node, o.Text)
+		}
+		if o.Kind == "op.deployed" && o.Text != "" {
+			return fmt.Sprintf("%s failed to restore: %s", o.Node, o.Text)
+		}
+	}
+	return ""
 }
 
 func countDkv(res *mbt.Result, before cluster.DkvStats) {
@@ -359,6 +380,8 @@ func (r *run) boot(w int, restart bool) (uint64, error) {
 		r.w = w
 		r.genW[r.c.Gen()] = w
 		countShapes(r.c, mark, r.res)
+	} else if why := restoreFailure(r.c, mark); why != "" && restart {
+		r.violation("restart from the newest completed checkpoint failed: "+why, nil, nil, "")
 	}
 	return restored, err
 }
@@ -567,6 +590,9 @@ func (r *run) exec(st mbt.Step) error {
 		}
 		restored, err := r.boot(st.Int("w"), true)
 		if err != nil {
+			if r.violated {
+				return err
+			}
 			if errors.Is(err, cluster.ErrBootTimeout) {
 				return err // machinery
 			}
@@ -694,6 +720,9 @@ func (r *run) finish() {
 	anyDead := len(r.dead) > 0
 	if anyDead {
 		if _, err := r.boot(r.w, true); err != nil {
+			if r.violated {
+				return
+			}
 			if errors.Is(err, cluster.ErrBootTimeout) {
 				r.res.Errors = append(r.res.Errors, err.Error())
 				return
@@ -1232,6 +1261,10 @@ func traceRun(cf *conf, rng *rand.Rand, in *mbt.Input, res *mbt.Result) []any {
 			restored, err := boot(nextW(), true)
 			flush()
 			if err != nil {
+				if why := restoreFailure(c, mark); why != "" {
+					events = append(events, map[string]any{"op": "Unrestorable", "n": int(restored), "err": why})
+					return events
+				}
 				if errors.Is(err, cluster.ErrBootTimeout) {
 					return fail("trace: %v", err)
 				}
@@ -1274,6 +1307,10 @@ func traceRun(cf *conf, rng *rand.Rand, in *mbt.Input, res *mbt.Result) []any {
 		restored, err := boot(nextW(), true)
 		flush()
 		if err != nil {
+			if why := restoreFailure(c, mark); why != "" {
+				events = append(events, map[string]any{"op": "Unrestorable", "n": int(restored), "err": why})
+				return events
+			}
 			if errors.Is(err, cluster.ErrBootTimeout) {
 				return fail("trace: %v", err)
 			}
